@@ -21,7 +21,7 @@ use pretty::RcDoc;
 
 use crate::token::regex_constants;
 
-use super::token::{Comment, WrappedToken};
+use super::token::{Comment, Token, WrappedToken};
 
 // Add brackets
 pub fn add_brackets<'a>(
@@ -123,6 +123,46 @@ pub fn get_comment_after_end<'src>(
     tokens: &mut [WrappedToken<'src>],
 ) -> Option<Comment<'src>> {
     Some(get_token_after_end(span, tokens)?.consume_comment())
+}
+
+/// The formatter does not print a trailing comma (`[1, 2,]`, `{a: 1,}`,
+/// `f(x,)`, `(principal, action, resource,)`). Consume and return the comment
+/// attached to the comma that directly follows `span`, so that the caller can
+/// still print it. Returns an empty comment if the token following `span` is
+/// not a comma.
+pub fn get_trailing_comma_comment<'src>(
+    span: Option<miette::SourceSpan>,
+    tokens: &mut [WrappedToken<'src>],
+) -> Option<Comment<'src>> {
+    let span = span?;
+    let end = span.offset() + span.len();
+    Some(match tokens.iter_mut().find(|t| t.span.start >= end) {
+        Some(t) if t.token == Token::Comma => t.consume_comment(),
+        _ => Comment::default(),
+    })
+}
+
+/// Like `get_comment_after_end`, but if the token directly following `span`
+/// is a (trailing) comma, return the comment of the token after that comma.
+pub fn get_comment_after_end_skip_comma<'src>(
+    span: Option<miette::SourceSpan>,
+    tokens: &mut [WrappedToken<'src>],
+) -> Option<Comment<'src>> {
+    let end = {
+        let span = span?;
+        span.offset() + span.len()
+    };
+    let mut after = tokens.iter_mut().skip_while(|t| t.span.start < end);
+    match after.next() {
+        Some(t) if t.token == Token::Comma => Some(after.next()?.consume_comment()),
+        Some(t) => Some(t.consume_comment()),
+        None => get_comment_after_end(span, tokens),
+    }
+}
+
+/// The doc of the comment of a token that is itself not printed
+pub fn get_dropped_token_comment_doc<'src>(comment: impl Borrow<Comment<'src>>) -> RcDoc<'src> {
+    add_comment(RcDoc::nil(), comment, RcDoc::nil())
 }
 
 pub fn get_comment_in_range<'src>(
